@@ -96,8 +96,9 @@ def class_decider(repo: Repo, subjects: Dict[str, str], flags: Optional[Dict[str
     def decide(key: Any) -> Optional[bool]:
         if key[0] == "isinstance":
             a = single_atom(key[1])
-            if a is not None and a[0] == "var" and a[1] in subjects:
-                k = cls(subjects[a[1]])
+            sn = a[1] if a is not None and a[0] == "var" else show(key[1])
+            if sn in subjects:
+                k = cls(subjects[sn])
                 if k is None:
                     return None
                 hit = False
